@@ -36,6 +36,12 @@ CHECKS = {
         text="In the import model every one of the non-test modules imports cleanly as the first import and every ordered pair imports in both orders with the same public names (89 + 89 obligations covering 89 + 7832 import sequences). "
              "Single-module imports are additionally replayed exhaustively in real interpreters on every run (the domain is finite, so that half of the property is decided completely); pairs by seeded sample (quick) or exhaustively (thorough).",
         note="The import model is trusted only as far as it agrees with the interpreter (disagreement = exit 3); environment fixed to this sandbox (optional third-party packages, Python 3.12 version flags)."),
+    "C10": dict(
+        category="proof", design_ref="DESIGN.md §5 C10, §2.4",
+        technique="contract-based verification by a typing discipline: ghost type 'unordered' for set-valued expressions with one obligation per consumption site, plus cross-call-state frame rules (rule engine E4 over the ast of the whole package)",
+        text="Every syntactically set-valued expression of the non-test package is consumed order-insensitively (membership, len, set algebra, sorted without a non-injective key, any/all/min/max, loops that only update pre-existing entries) and no function writes globals, module attributes, module-level objects, mutable defaults or caches; this implies independence from the hash seed and from call history for all inputs. "
+             "The seed/history byte comparison is a bounded cross-check for what the syntactic typing cannot see.",
+        note="Assumed: values whose type the rules cannot see are ordered; dict order is insertion order; black/ast.unparse deterministic; four call sites where a set is passed to a repo callee are assumed order-insensitive (listed in the evidence)."),
 }
 
 NA_REASON = "check not built yet (work in progress; see DESIGN.md for the plan)"
@@ -54,6 +60,7 @@ m = {
         {"name": "cddvc-E1", "path": "cddvc/symexec.py", "serves_properties": sorted(CHECKS), "kind_free_text": "AST -> verification conditions (symbolic execution with contracts, loop invariants/variants, abstract list views) discharged by z3 5.1 / cvc5 / z3 4.8"},
         {"name": "cddvc-E2", "path": "cddvc/effects.py", "serves_properties": ["C17", "C20"], "kind_free_text": "effect / frame checker over the call graph, flag-guard dominance; cddvc/charset.py refinement check"},
         {"name": "cddvc-E3", "path": "cddvc/imports.py", "serves_properties": ["C18"], "kind_free_text": "import-protocol simulator over module-level statements + real-interpreter replay"},
+        {"name": "cddvc-E4", "path": "cddvc/ordered.py", "serves_properties": ["C10"], "kind_free_text": "orderedness typing rules + cross-call-state rules"},
         {"name": "cddvc-E5", "path": "cddvc/termination.py", "serves_properties": ["C11"], "kind_free_text": "termination rules over the import-aware call graph (cddvc/callgraph.py)"},
     ],
     "checks": [],
